@@ -727,3 +727,5 @@ func (e *Env) checkSourceMeta(copyPath string) *Violation {
 	}
 	return nil
 }
+
+func (e *Env) probeLogger() *slog.Logger { return slog.New(e.Probe) }
